@@ -152,7 +152,7 @@ def merge(tier, runs, cases, seeds, wall, viol, path, orders, skipped=None):
         return
     ev["coverage"]["miri_atomicity"] = {
         "what": "AtomicBitmapMmap::mark_dirty (real code of /repo, through BitmapMmapRegion) on 2..=8 threads writing pages that share log bytes; Miri preempts at basic-block granularity from its seed; oracle: every expected page bit set, no other bit set",
-        "executions": runs, "distinct_cases": cases, "distinct_case_and_finish_order_pairs": orders, "miri_seeds_per_case_batch": seeds,
+        "tier": tier, "executions": runs, "distinct_cases": cases, "distinct_case_and_finish_order_pairs": orders, "miri_seeds_per_case_batch": seeds,
         "preemption_rate": float(RATE), "wall_s": round(wall, 1), "violations": viol,
         "real_components": ["vhost-user-backend bitmap.rs (AtomicBitmapMmap, BitmapMmapRegion, MmapLogReg indexing)", "std atomics, RwLock, threads as interpreted by Miri"],
         "stub_components": ["guest region (geometry only)", "log area (anonymous mapping instead of the frontend's file)"],
